@@ -2,7 +2,35 @@ package main
 
 // Which harnesses decide which property, with which bounds, per tier.
 
+func parseRuns(thorough bool) []hrun {
+	var r []hrun
+	maxN := 3
+	if thorough {
+		maxN = 4
+	}
+	for df := 0; df <= 1; df++ {
+		for n := 0; n <= maxN; n++ {
+			r = append(r, hrun{Harness: "ParseBytes", Params: P("N", n, "DF", df), Panics: true})
+		}
+		r = append(r, hrun{Harness: "ParseTokens", Params: P("K", 1, "DF", df, "WIDE", 1), Panics: true})
+		maxK := 2
+		if thorough {
+			maxK = 3
+		}
+		for k := 1; k <= maxK; k++ {
+			r = append(r, hrun{Harness: "ParseTokens", Params: P("K", k, "DF", df, "WIDE", 0), Panics: true})
+		}
+	}
+	return r
+}
+
 var props = map[string]propCfg{
+	"C01": {
+		Quick:    parseRuns(false),
+		Thorough: parseRuns(true),
+		Bounds:   "all byte strings of length <= 3 (quick) / <= 4 (thorough); one token with every literal content of <= 3 bytes; token sequences of <= 2 (quick) / <= 3 (thorough) tokens over 20 token shapes with symbolic literal bytes; with and without a default field; consumers String, %#v, Render, RenderParam",
+		Outside:  "longer inputs; asymptotic running time; symbolic decimal floats (cut); JSON encoding (see C12)",
+	},
 	"C16": {
 		Quick:    []hrun{{Harness: "LexSegment", Params: P("N", 0)}, {Harness: "LexSegment", Params: P("N", 1)}, {Harness: "LexSegment", Params: P("N", 2)}, {Harness: "LexSegment", Params: P("N", 3)}},
 		Thorough: []hrun{{Harness: "LexSegment", Params: P("N", 0)}, {Harness: "LexSegment", Params: P("N", 1)}, {Harness: "LexSegment", Params: P("N", 2)}, {Harness: "LexSegment", Params: P("N", 3)}, {Harness: "LexSegment", Params: P("N", 4)}},
